@@ -122,23 +122,57 @@ package group
 //@ -- the group registered under a name (nil if none)
 //@ spec lookup(name string) *Group = (has(groups.groups, name) ? groups.groups[name] : nil)
 //@
-//@ func Add
+//@ func descriptionMatch
 //@   trusted
-//@   why group.go Add/add: looks the group up (creating it from its description file if needed) under groups.mu and g.mu, releases both;
-//@        may replace the description of an existing group and lock it (autolock); the description's time stamps are objects of their own,
-//@        allocated by the JSON decoder; not yet verified here
-//@   modifies groups.groups[*], groups.groups, lookup(name).description, lookup(name).locked
+//@   why description.go: compares file name, size and mtime of two descriptions; no effect
+//@   modifies nothing
+//@ func descriptionUnchanged
+//@   trusted
+//@   why description.go: stats the group's file and compares with the description; no effect on program state
+//@   modifies nothing
+//@
+//@ func add
+//@   props C10 C13 C19 C12
+//@   requires unlocked: !held(groups.mu)
+//@   -- context assumption (lock order groups.mu -> Group.mu): no group mutex is held by the caller
+//@   assume group-unlocked: forall n string :: has(groups.groups, n) ==> groups.groups[n] == nil || !held(groups.groups[n].mu)
+//@   -- invariant of the table: a registered group has a description and a client table
+//@   assume table: forall n string :: has(groups.groups, n) && groups.groups[n] != nil ==> groups.groups[n].description != nil && !isnil(groups.groups[n].clients)
+//@   modifies held(groups.mu), groups.groups[*], groups.groups, lookup(name).description, lookup(name).locked, held(lookup(name).mu), ghostint("lockeval", lookup(name))
+//@   ensures unlocked: !held(groups.mu)
+//@   -- C19: nothing is looked up or created under a name the validator refuses
+//@   ensures valid-name: result2 == nil ==> validGroupName(name)
+//@   assert at call readDescription#1 valid-name: validGroupName(name)
+//@   assert at call readDescription#2 valid-name: validGroupName(name)
+//@   -- C10: on every successful lookup the autolock/autokick rule has been evaluated for the group, under its mutex,
+//@   -- AFTER the description was settled (a new autolock group therefore starts locked)
+//@   ensures lock-evaluated: result2 == nil ==> ghostint("lockeval", result0) == old(ghostint("lockeval", result0)) + 1
+//@   ensures found: result2 == nil ==> result0 != nil && !held(result0.mu) && result0.description != nil && !isnil(result0.clients)
+//@   ensures same-or-new: result2 == nil ==> (old(lookup(name)) != nil ? same(result0, old(lookup(name))) && same(result0.clients, old(lookup(name).clients)) : fresh(result0) && fresh(result0.clients))
+//@   ensures failed: result2 != nil ==> result0 == nil && len(result1) == 0
+//@
+//@ func Add
+//@   props C10 C13 C12
+//@   requires unlocked: !held(groups.mu)
+//@   modifies held(groups.mu), groups.groups[*], groups.groups, lookup(name).description, lookup(name).locked, held(lookup(name).mu), ghostint("lockeval", lookup(name))
+//@   invariant loop 1 range: -1 <= rangeindex && rangeindex < len(notify)
+//@   ensures unlocked: !held(groups.mu)
 //@   ensures found: isnil(result1) ==> result0 != nil && !held(result0.mu) && result0.description != nil && !isnil(result0.clients)
-//@        && foreignobject(result0.description.NotBefore) && foreignobject(result0.description.Expires)
+//@   -- (the description's time stamps are objects of their own, allocated by the JSON decoder: assumed)
+//@   trusts foreign-times: isnil(result1) ==> foreignobject(result0.description.NotBefore) && foreignobject(result0.description.Expires)
 //@   ensures same-or-new: isnil(result1) ==> (old(lookup(name)) != nil ? same(result0, old(lookup(name))) && same(result0.clients, old(lookup(name).clients)) : fresh(result0) && fresh(result0.clients))
 //@   ensures failed: !isnil(result1) ==> result0 == nil
+//@   ensures lock-evaluated: isnil(result1) ==> ghostint("lockeval", result0) == old(ghostint("lockeval", result0)) + 1
 //@
 //@ func autoLockKick
 //@   props C10 C13
 //@   requires nonnil: g != nil && g.description != nil
 //@   -- "called locked" in the source
 //@   requires locked: held(g.mu)
-//@   modifies g.locked
+//@   modifies g.locked, ghostint("lockeval", g)
+//@   -- (ghost: how many times the autolock/autokick rule has been evaluated for this group)
+//@   ghost ghostint("lockeval", g) = old(ghostint("lockeval", g)) + 1
+//@   ensures evaluated: ghostint("lockeval", g) == old(ghostint("lockeval", g)) + 1
 //@   invariant loop 1 range: -1 <= rangeindex$1 && rangeindex$1 < len(clients)
 //@   invariant loop 2 range: -1 <= rangeindex$2 && rangeindex$2 < len(clients)
 //@   invariant loop 2 locked-now: g.locked != nil
@@ -153,7 +187,8 @@ package group
 //@   requires nonnil: c != nil
 //@   -- context assumption (lock order groups.mu -> Group.mu -> client locks): callers do not hold the group's mutex
 //@   assume unlocked: isnil(icall("group.Client.Group", c)) || (!held(icall("group.Client.Group", c).mu) && icall("group.Client.Group", c).description != nil)
-//@   modifies icall("group.Client.Group", c).clients[*], icall("group.Client.Group", c).timestamp, icall("group.Client.Group", c).locked, held(icall("group.Client.Group", c).mu)
+//@   modifies icall("group.Client.Group", c).clients[*], icall("group.Client.Group", c).timestamp, icall("group.Client.Group", c).locked, held(icall("group.Client.Group", c).mu),
+//@        ghostint("lockeval", icall("group.Client.Group", c))
 //@   invariant loop 1 range: -1 <= rangeindex && rangeindex < len(clients)
 //@   ensures unlocked: isnil(icall("group.Client.Group", c)) || !held(icall("group.Client.Group", c).mu)
 //@
@@ -161,9 +196,11 @@ package group
 //@   props C10 C13 C14
 //@   requires nonnil: c != nil && ref(c) != 0
 //@   requires token-store-free: !held(token.tokens.mu)
-//@   modifies groups.groups[*], groups.groups, lookup(group).description, lookup(group).locked, lookup(group).clients[*], lookup(group).timestamp, held(lookup(group).mu),
+//@   requires unlocked: !held(groups.mu)
+//@   modifies held(groups.mu), ghostint("lockeval", lookup(group)), groups.groups[*], groups.groups, lookup(group).description, lookup(group).locked, lookup(group).clients[*], lookup(group).timestamp, held(lookup(group).mu),
 //@        object(c), ghostint("inits", c), held(token.tokens.mu), token.tokens.modTime, token.tokens.fileSize, token.tokens.tokens
 //@   ensures token-store-free: !held(token.tokens.mu)
+//@   ensures unlocked: !held(groups.mu)
 //@   -- C10/C11: a refused client is left exactly as it was
 //@   ensures refused-unchanged: !isnil(result1) ==> unchangedobject(c)
 //@   invariant loop 1 range: -1 <= rangeindex$1 && rangeindex$1 < len(clients)
@@ -357,10 +394,15 @@ package group
 //@ global std-errors-set: os.ErrNotExist != nil && ErrTagMismatch != nil && ErrDescriptionsNotWritable != nil
 //@
 //@ func makeETag
-//@   trusted
-//@   why description.go: fmt.Sprintf("\"%v-%v\"", size, mtime in ns): a deterministic function of its arguments that always starts with a quote, hence never the empty tag
+//@   safe
 //@   pure
-//@   ensures nonempty: result != ""
+//@   props C18 C12
+//@   modifies nothing
+//@   -- C18: the tag is made of the file size and the modification time IN NANOSECONDS
+//@   assert at call Sprintf size-and-nanos: len(arg_a) == 2 && holds(arg_a[0], fileSize) && holds(arg_a[1], callresult("UnixNano", 1))
+//@   assert at call UnixNano of-mtime: arg_t == modTime
+//@   -- (fmt.Sprintf("\"%v-%v\"", ...) always starts with a quote, hence is never the empty tag: assumed)
+//@   trusts nonempty: result != ""
 //@
 //@ func readDescription
 //@   trusted
